@@ -127,12 +127,9 @@ def run(ck: Check):
         ck.notes.append("IncrementalKSTest / streaming MMD reset clause: covered once their models exist (C09/C11)")
     # model correspondence on the same histories
     models = run_models("C02", corr)
-    for (det, cfg, ops, _), im, mo in zip(corr, corr_impl, models):
-        ck.corr_cases += 1
-        d = compare_traces(im, mo)
-        if d is not None:
-            ck.mismatch(f"model {det.coq_D} vs {det.name}", dict(detector=det.name, config=cfg, ops=ops[: d[0] + 1], step=d[0], diff=d[1]))
+    from detectors import corr_compare
 
+    corr_compare(ck, "C02", corr, corr_impl, models)
 
 def main(tier, seed):
     ck = Check("C02", tier, seed)
